@@ -28,9 +28,12 @@ pub struct Case {
     /// the application offers the remaining chunks only after back-pressure has lifted and the
     /// other senders had their chance (no second back-pressure episode helps them out)
     pub hold: bool,
+    /// the application's control service is still busy with the "back-pressure enabled"
+    /// notification when back-pressure lifts
+    pub slow_ctl: bool,
 }
 
-pub async fn run_case(case: &Case) -> (Vec<(String, String)>, bool, Vec<String>) {
+pub async fn run_case(case: &Case) -> (Vec<(String, String)>, bool, Vec<String>, usize) {
     let app = App::new("c13s");
     let mut cfg = ConnCfg::new(case.role);
     cfg.max_send = case.cap;
@@ -40,6 +43,7 @@ pub async fn run_case(case: &Case) -> (Vec<(String, String)>, bool, Vec<String>)
         cfg.connack_props = vec![Prop::U16(0x21, case.cap)];
     }
     let mut c = conn::start(&cfg, app.clone()).await;
+    app.wr_on_gated.set(case.slow_ctl);
     let sink = c.sink();
     let v5 = case.role.is_v5();
     let total = case.chunk * case.chunks;
@@ -64,7 +68,7 @@ pub async fn run_case(case: &Case) -> (Vec<(String, String)>, bool, Vec<String>)
             }
             Err(r) => {
                 vio.push(("streamed send could not be started".into(), format!("{r:?} — {what}")));
-                return (vio, false, app.render(30));
+                return (vio, false, app.render(30), 0);
             }
         }
     } else {
@@ -112,6 +116,12 @@ pub async fn run_case(case: &Case) -> (Vec<(String, String)>, bool, Vec<String>)
     // back-pressure lifts; the peer acknowledges whatever it receives
     c.peer.unlimited();
     c.settle().await;
+    let mut slow_done = 0;
+    if case.slow_ctl {
+        // ... and only now the control service is done with the earlier notification
+        slow_done = app.open_all(crate::app::Outcome::Ok);
+        c.settle().await;
+    }
     if case.hold && paused {
         // back-pressure is off and a slot is free right now: nobody may still be parked. A sender
         // may have failed locally (a payload is owed), it must not stay blocked
@@ -180,7 +190,7 @@ pub async fn run_case(case: &Case) -> (Vec<(String, String)>, bool, Vec<String>)
     let log = app.render(30);
     drop(ops);
     c.finish().await;
-    (vio, paused, log)
+    (vio, paused, log, slow_done)
 }
 
 pub fn run_part(_opts: &Opts, rep: &Report) {
@@ -191,7 +201,8 @@ pub fn run_part(_opts: &Opts, rep: &Report) {
                 for (chunk, chunks) in [(100usize, 6usize), (300, 3), (40, 20), (700, 2)] {
                     for others in [0usize, 1, 3] {
                         for hold in [false, true] {
-                            cases.push(Case { role, qos, cap, chunk, chunks, others, hold });
+                            cases.push(Case { role, qos, cap, chunk, chunks, others, hold, slow_ctl: false });
+                            cases.push(Case { role, qos, cap, chunk, chunks, others, hold, slow_ctl: true });
                         }
                     }
                 }
@@ -203,8 +214,9 @@ pub fn run_part(_opts: &Opts, rep: &Report) {
         let r = exec(run_case(&case));
         rep.eval();
         match &r {
-            Run::Done((v, paused, log), _) => {
+            Run::Done((v, paused, log, slow), _) => {
                 rep.count("stream_backpressure_cases", 1);
+                rep.count("backpressure_lifted_while_the_control_service_was_busy_with_the_on_notification", (*slow > 0) as u64);
                 rep.count("streams_paused_by_backpressure", *paused as u64);
                 rep.distinct(pool::hash_str(&format!("{case:?}")));
                 for (class, what) in v {
